@@ -373,3 +373,37 @@ Section Round15.
     - discriminate.
   Qed.
 End Round15.
+
+(* ================= C02 end to end, quote aggregates ================= *)
+Section RoundQuote.
+  Context (h : Z -> chandef -> list Z) (check : list Z -> option (gmap Z Z)) (codec_ok : chandef -> bool).
+  Context (cf : cfg) (seq : Z) (prev_bytes : list Z).
+  Local Notation tagged := (tagged check codec_ok cf seq prev_bytes).
+  Local Notation lsenders_ok := (lsenders_ok codec_ok cf seq prev_bytes).
+
+  (* the Quote the new outcome holds for (stream, quote) is ordered and its benchmark lies between the benchmarks of two
+     quotes that correct nodes' data sources returned *)
+  Theorem llo_quote_between_data_sources ss prev next sid bid bm ask :
+    bok prev_bytes -> lsenders_ok ss -> 1 < seq ->
+    outcome_step h cf seq prev (map fst (tagged ss)) = Ok next ->
+    o_aggs next !! (sid, 3) = Some (SQuote bid bm ask) ->
+    honest_quote (accepted_vals (tagged ss) sid) ->
+    (fpres (accepted_vals (tagged ss) sid) < hpres (accepted_vals (tagged ss) sid))%nat ->
+    dle bid bm /\ dle bm ask /\
+    exists i1 i2 a1 b1 c1 a2 b2 c2,
+      (exists rms ups vals, In (LCorrect i1 rms ups vals) ss) /\ (exists rms ups vals, In (LCorrect i2 rms ups vals) ss) /\
+      oi_vals i1 !! sid = Some (SQuote a1 b1 c1) /\ oi_vals i2 !! sid = Some (SQuote a2 b2 c2) /\ dle b1 bm /\ dle bm b2.
+  Proof.
+    intros Hb Hok Hseq Hstep Hl Hh Hmaj.
+    destruct (outcome_quote_in_honest_range h cf seq prev (tagged ss) next sid bid bm ask Hseq Hstep Hl Hh Hmaj)
+      as (H1 & H2 & l & hh & Hlin & Hhin & (a1 & b1 & c1 & -> & Hle1) & (a2 & b2 & c2 & -> & Hle2)).
+    split; [exact H1|]. split; [exact H2|].
+    assert (Hfind : forall x, In (Some x, true) (accepted_vals (tagged ss) sid) ->
+                    exists i, (exists rms ups vals, In (LCorrect i rms ups vals) ss) /\ oi_vals i !! sid = Some x).
+    { intros x Hx. destruct (accepted_vals_in _ _ _ _ Hx) as (ob & Hob & Hv).
+      destruct (tagged_correct check codec_ok cf seq prev_bytes ss ob Hb Hok Hob) as (i & rms & ups & vals & Hs & Hsub & _).
+      exists i. split; [eauto|]. eapply lookup_weaken; [exact Hv|exact Hsub]. }
+    destruct (Hfind _ Hlin) as (i1 & Hi1 & E1). destruct (Hfind _ Hhin) as (i2 & Hi2 & E2).
+    exists i1, i2, a1, b1, c1, a2, b2, c2. auto 10.
+  Qed.
+End RoundQuote.
